@@ -29,7 +29,7 @@ inside a //@fn or //@frag block (terminated by //@end):
   //@wrap                      following lines: wrapper fn header up to (excluding) '{'
   //@pre                       following lines: statements placed before the fragment
   //@post                      following lines: statements/expression placed after it
-  //@subst <regex> => <text>   textual substitution inside the fragment (listed in evidence)
+  //@subst <regex> => <text>   textual substitution inside the fragment (listed in evidence); `//@subst?` = optional
 """
 import os
 import re
@@ -858,9 +858,11 @@ def assemble(template_path, repo):
                 elif key == "stop-before":
                     d["stop"] = arg
                     d["stop_before"] = True
-                elif key == "subst":
+                elif key in ("subst", "subst?"):
+                    # `//@subst? a => b`: applied where it matches; a miss is not a lost anchor (the contract must then
+                    # notice what the missing text means)
                     a, _, b = arg.partition("=>")
-                    d["substs"].append((a.strip(), b.strip()))
+                    d["substs"].append((a.strip(), b.strip()) if key == "subst" else (a.strip(), b.strip(), True))
                 else:
                     raise Unsupported("unknown directive %r" % s2)
             else:
@@ -872,9 +874,12 @@ def assemble(template_path, repo):
         if kind == "itemx":
             # verbatim item with listed textual substitutions (e.g. an elided 'static lifetime Verus wants spelled out)
             text = src[item.start:item.end]
-            for a_, b_ in d["substs"]:
+            for sb_ in d["substs"]:
+                a_, b_ = sb_[0], sb_[1]
                 text, nsub = re.subn(a_, b_, text)
                 if nsub == 0:
+                    if len(sb_) > 2:
+                        continue
                     raise LostAnchor("%s: subst /%s/ does not match" % (where, a_))
                 ex.substs.append("%s: s/%s/%s/ (%d)" % (where, a_, b_, nsub))
             ex.items.append({"file": rel, "path": segs, "line": _line_of(src, item.start)})
@@ -939,9 +944,13 @@ def assemble(template_path, repo):
                 frag = drop_log(frag, ex.dropped)
             for r_ in d["rules"]:
                 frag = RULES[r_](frag)
-            for a_, b_ in d["substs"]:
+            for sb_ in d["substs"]:
+                a_, b_ = sb_[0], sb_[1]
                 frag, nsub = re.subn(a_, b_, frag)
                 if nsub == 0:
+                    if len(sb_) > 2:
+                        ex.substs.append("%s: optional s/%s/%s/ did not match (0)" % (where, a_, b_))
+                        continue
                     raise LostAnchor("%s: subst /%s/ does not match" % (where, a_))
                 ex.substs.append("%s: s/%s/%s/ (%d)" % (where, a_, b_, nsub))
             src_line = _line_of(src, item.body_open + ls)
